@@ -1,8 +1,23 @@
 /-
   C06 — JSONB documents decode to an equal JSON document.
-  Property theorems only; helper lemmas are in Proofs/Jsonb.lean and Proofs/JsonbRound.lean.
+  Property theorems only; helper lemmas are in Proofs/Jsonb.lean, Proofs/JsonbRound.lean and Proofs/JsonbGo.lean.
+
+  Numbers.  `ParseJSONB` returns Go values, and a JSON number in Go is a `float64`: the code builds the exact decimal
+  text of the stored numeric and returns `strconv.ParseFloat` of it (C05).  Two levels are therefore stated:
+   * `C06_roundtrip` — exact: the document with every number read as the decimal its text denotes (`JV.toView`);
+     this is "same nesting, keys, values, order" with numbers compared by their exact value, a quantity the code holds
+     only as text;
+   * `C06_roundtrip_go` — what the caller gets: under ParseFloat's contract (`Spec.ParseFloatOK`) the returned Go value
+     is the document with every number replaced by the float64 NEAREST to it.  Numbers are thus compared AS DOUBLES:
+     two stored numbers that round to the same double (9007199254740993 and 9007199254740992) decode to the same value —
+     inherent to float64 JSON numbers, not a loss the property excludes ("to double precision", C05).
+  Outside these statements: Go's `int` is taken as unbounded (true on 64-bit platforms: offsets stay below 2^28·len/4; on
+  a 32-bit `int` the running end offset of hostile entry arrays could wrap); the recursion ParseJSONB → decodeJEntry →
+  ParseJSONB has no depth limit in the code — the model is total at any depth, the Go stack is not (≈ 272 bytes per level:
+  fatal only beyond ≈ 3.7 million levels ≈ 30 MB of input; family jsonb_alias runs 4 000 and 8 000 levels).
 -/
 import PgVerif.Proofs.JsonbKeys
+import PgVerif.Proofs.JsonbGo
 namespace PgVerif.Props.C06
 open PgVerif PgVerif.Model PgVerif.Proofs
 
@@ -55,13 +70,38 @@ well-formed numeric, booleans, null; empty objects and arrays at any depth; a co
 scalar root; containers with any number of elements / pairs (fix 10 removed the implementation's cap
 of 10 000, former finding J10K) — whose encoding is below 2^28 bytes (PostgreSQL's own limit for the
 offsets), `ParseJSONB` applied to PostgreSQL's binary encoding returns exactly the document: same
-nesting, same keys, same values (numbers by their exact value, see C05), same order.  The 32-entry
+nesting, same keys, same values (numbers by the exact value of the decimal text handed to ParseFloat, see C05 and
+`C06_roundtrip_go` for the float64 actually returned), same order.  The 32-entry
 offset stride is crossed any number of times in the key half, the value half and in arrays; any amount
 of alignment padding. -/
 theorem C06_roundtrip (j : Spec.Json) (h : j.wf = true)
     (hsize : (Spec.encJsonb j).length < 0x10000000) :
     (parseJSONB (Spec.encJsonb j)).map JV.toView = .ok j.view :=
   roundtrip_covered j (covered_of_wf j h) hsize
+
+/-- Round trip at the level of the Go value returned.  Let `pf` be a text-to-float64 conversion with ParseFloat's contract.
+For every well-formed document with an encoding below 2^28 bytes, `ParseJSONB` returns the document — same nesting, keys,
+strings, booleans, nulls, order — with every number being the float64 nearest to the stored numeric's exact value
+(bit for bit; NaN / ±Infinity as such).  Go `int(0)` (a numeric stored without digits) is read as the float64 0
+(`Spec.numAsF64`).  Numbers are compared as doubles: see the file header. -/
+theorem C06_roundtrip_go (pf : ParseFloat) (hpf : Spec.ParseFloatOK pf) (j : Spec.Json) (h : j.wf = true)
+    (hsize : (Spec.encJsonb j).length < 0x10000000) :
+    (parseJSONB (Spec.encJsonb j)).map (fun v => Spec.numAsF64 (v.toGo pf)) = .ok j.view.toGo := by
+  have hr := roundtrip_covered j (covered_of_wf j h) hsize
+  cases hp : parseJSONB (Spec.encJsonb j) with
+  | error e => rw [hp] at hr; simp [Except.map] at hr
+  | ok v =>
+    rw [hp] at hr
+    simp only [Except.map, Except.ok.injEq] at hr ⊢
+    rw [← hr]
+    exact JsonbGo.jv_toGo pf hpf v (by rw [hr]; exact JsonbGo.view_decodable j)
+
+/-- the float64 caveat on a concrete document: `[9007199254740993]` comes back as `[9007199254740992.0]`, which IS the
+nearest double of the stored number -/
+example : (Spec.Json.arr [.num (.fin false 3 0 [9007, 1992, 5474, 993]) false]).view.toGo = .arr [.f64 0x4340000000000000] := by
+  have h : (Spec.Numeric.fin false 3 0 [9007, 1992, 5474, 993]).view.bits = 0x4340000000000000 := by decide +kernel
+  show GoVal.arr [GoVal.f64 (Spec.Numeric.fin false 3 0 [9007, 1992, 5474, 993]).view.bits] = _
+  rw [h]
 
 /-- The same with the weaker hypothesis actually used by the proof: object keys need only be pairwise
 distinct (`covered`), not sorted. -/
@@ -72,7 +112,9 @@ theorem C06_roundtrip_distinct_keys (j : Spec.Json) (hs : covered j = true)
 
 /-- Through `DecodeType(data, OidJSONB)`: the same document, and never the raw-string fallback — in
 particular `{}`, `[]` (fix 05) and the document `null` (fix 06), which used to come back as strings of
-raw bytes. -/
+raw bytes.  (The distinction document / fallback is the model's: in Go both a JSON string document and the fallback are a
+`string`; for a string root the two could only be told apart by content — the fallback is the raw encoding, which begins
+with the container header bytes.) -/
 theorem C06_decodeType (j : Spec.Json) (h : j.wf = true)
     (hsize : (Spec.encJsonb j).length < 0x10000000) :
     (decodeTypeJSONB (Spec.encJsonb j)).map docOf = .ok (some j.view) := by
